@@ -30,6 +30,10 @@ class Ref:
     def apply(self, cmd):
         """returns the reply Redis gives"""
         c, k = cmd[0], cmd[1].split(":", 2)[2]
+        if k.startswith("e"):
+            # the family of keys written with a short expire time (SETEX, then INCR / INCRBY): the harness starts the next
+            # life only after the expire time, so no dump ever shows them; their replies depend on the clock and are not compared
+            return None
         if c == "set":
             self.kv[k] = cmd[2]
             return "+OK"
@@ -188,7 +192,7 @@ def oracle_dir(runs):
             return fails, stats
         # every acknowledged op is in; each unanswered / error-answered op is in or out
         # (a refused SETEX has no effect whether it was proposed or not: it is not a choice)
-        doubt = [i for i, p in enumerate(pending) if p[1] != "ack" and p[0][0] != "setex"]
+        doubt = [i for i, p in enumerate(pending) if p[1] != "ack" and p[0][0] != "setex" and not p[0][1].split(":", 2)[2].startswith("e")]
         ok = None
         if len(doubt) <= 10:
             for choice in itertools.product([False, True], repeat=len(doubt)):
@@ -201,7 +205,7 @@ def oracle_dir(runs):
                     rep = st.apply(cmd)
                     # PFADD's reply ("a register changed") depends on the HLL representation in memory, not only on
                     # the set of elements: it is not part of the state and is not compared
-                    if status == "ack" and rep != reply and cmd[0] != "pfadd":
+                    if status == "ack" and rep is not None and rep != reply and cmd[0] != "pfadd":
                         good = False
                         break
                 if not good:
@@ -217,7 +221,7 @@ def oracle_dir(runs):
             for cmd, status, reply in pending:
                 if status == "ack":
                     rep = st.apply(cmd)
-                    if rep != reply and badreply is None and cmd[0] != "pfadd":
+                    if rep is not None and rep != reply and badreply is None and cmd[0] != "pfadd":
                         badreply = dict(cmd=cmd, reply=reply, reference=rep)
             st.apply(mk["cmd"])
             fails.append(dict(name="state-d%d-r%d" % (r["dir"], r["run"]),
@@ -385,6 +389,22 @@ def gen_consecutive(seed, njobs, engines):
         p2 = SNAP_WINDOW[(d // len(SNAP_WINDOW) + seed) % len(SNAP_WINDOW)] if njobs > len(SNAP_WINDOW) else p1
         specs = ["P:%s:2:0" % p1, "S:%s:1" % p2, "S:%s:1" % rnd.choice(SNAP_WINDOW), "X:%d:0" % rnd.randint(1, 12), "X:%d:0" % rnd.randint(20, 40)]
         jobs.append(dict(seed=rnd.randrange(1 << 40), engine=engines[d % len(engines)], optfsync=(d % 2 == 0), ops_max=OPS_MAX, specs=specs))
+    return jobs
+
+
+def gen_special(seed, njobs, engines):
+    """directories with one special ingredient each (dirJob.mode): 'big' a value above 1 MiB shortly before every kill
+    (the wal encoder's 1 MiB buffer), 'tear' a torn record behind the WAL's tail after every kill (wal.Repair on a WAL that
+    has rolled over to further segments), 'ttl' SETEX + INCR + INCRBY shortly before the kill and the restart after the
+    expire time (a replay judges expiry by the entry's timestamp)"""
+    rnd = __import__("random").Random(seed + 83)
+    modes = ["big", "tear", "ttl"]
+    jobs = []
+    for d in range(njobs):
+        specs = ["X:%d:%d" % (rnd.randint(25, 60), rnd.randint(0, 7)), "X:%d:%d" % (rnd.randint(14, 40), rnd.randint(0, 7)),
+                 "X:%d:%d" % (rnd.randint(9, 30), rnd.randint(0, 7))]
+        jobs.append(dict(seed=rnd.randrange(1 << 40), engine=engines[d % len(engines)], optfsync=(d % 2 == 0), ops_max=OPS_MAX, specs=specs,
+                         mode=modes[(d + seed) % 3] if njobs < 6 else modes[d % 3]))
     return jobs
 
 
@@ -682,13 +702,15 @@ def run(ctx):
         if quick:
             batches.append(("follower", gen_follower(ctx.seed, 6, ["pebble", "rocksdb", "mem"], cover_once=True)))
             batches.append(("sparse", gen_sparse_snapshots(ctx.seed, 3, ["pebble", "rocksdb", "mem"])
-                            + gen_consecutive(ctx.seed, 3, ["rocksdb", "pebble", "mem"])))
+                            + gen_consecutive(ctx.seed, 3, ["rocksdb", "pebble", "mem"])
+                            + gen_special(ctx.seed, 3, ["pebble", "rocksdb", "mem"])))
             batches.append(("fresh", gen_jobs(ctx.seed, 12, 4, ["pebble", "rocksdb", "mem"], known, cover_once=True)))
         else:
             batches.append(("fresh", gen_jobs(ctx.seed, 320, 9, engines, known)))
             batches.append(("systematic", gen_systematic(ctx.seed, engines, known, [1, 2, 3, 4, 5, 8, 13, 21, 34, 47, 55, 69])))
             batches.append(("follower", gen_follower(ctx.seed, 160, engines, lives=4)))
-            batches.append(("sparse", gen_sparse_snapshots(ctx.seed, 45, engines) + gen_consecutive(ctx.seed, 27, engines)))
+            batches.append(("sparse", gen_sparse_snapshots(ctx.seed, 45, engines) + gen_consecutive(ctx.seed, 27, engines)
+                            + gen_special(ctx.seed, 36, engines)))
 
     all_fail, all_mism, stats_all, hist_all, samples = [], [], {}, {}, []
     not_followed = []
